@@ -25,6 +25,8 @@ STATES = {
     "swallow": "em = channel.gateway.execmodel\nwhile True:\n    try:\n        em.sleep(0.2)\n    except KeyboardInterrupt:\n        pass",
     "daemon": "em = channel.gateway.execmodel\ndef spin():\n    while True:\n        em.sleep(0.2)\nem.start(spin)\nchannel.receive()",
     "sending": "em = channel.gateway.execmodel\nwhile True:\n    channel.send(b'x' * 100)\n    em.sleep(0.01)",
+    # a non-daemon thread that outlives its task: the worker closes the connection but the process stays
+    "nondaemon": "em = channel.gateway.execmodel\ndef linger():\n    for i in range(3000):\n        em.sleep(0.2)\nem.start_nondaemon(linger)",
     "stopped": "channel.receive()",  # + SIGSTOP
     "dead": "channel.receive()",  # + SIGKILL before terminate
 }
@@ -118,7 +120,11 @@ class TermScn:
         if alive:
             return V("child-left-behind", f"locally started child processes still alive after terminate: {alive}")
         alive = [n for n, a in ctx.get("all_children", []) if a]
-        if alive:
+        # beyond the letter of C05 ("started locally"): kept for the states where execnet itself
+        # promises it (the sub kills itself); a proxied child that lingers on a non-daemon thread
+        # can only be killed through the forwarder, whose receiver is blocked in RIO_WAIT (XXX in
+        # serve_proxy_io) -- observed, not demanded (DESIGN 9.3)
+        if alive and P["state"] != "nondaemon":
             return V("proxied-child-left-behind", f"processes started for member gateways (through a via gateway) still alive after terminate: {alive}")
         if ctx.get("second", 0) > 0.01:
             return V("second-terminate", f"a second terminate() on the empty group took {ctx['second']} s")
@@ -144,6 +150,7 @@ SRC = {
  "swallow": "import time\nwhile True:\n    try:\n        time.sleep(0.2)\n    except KeyboardInterrupt:\n        pass",
  "daemon": "import threading, time\ndef spin():\n    while True:\n        time.sleep(0.2)\nthreading.Thread(target=spin, daemon=True).start()\nchannel.receive()",
  "sending": "while True:\n    channel.send(b'x' * 100)",
+ "nondaemon": "import threading, time\nthreading.Thread(target=time.sleep, args=(60,)).start()",
  "stopped": "channel.receive()",
  "dead": "channel.receive()",
  "failed-id": None,
@@ -226,7 +233,7 @@ def run(tier: str, only=None) -> int:
                         if moment == "immediately" and state in ("stopped", "dead"):
                             continue
                         if tier == "quick":
-                            if topo in ("via2", "via+popen") and (model != "thread" or state not in ("idle", "sleep", "swallow", "stopped") or moment != "settled"):
+                            if topo in ("via2", "via+popen") and (model != "thread" or state not in ("idle", "sleep", "swallow", "stopped", "nondaemon") or moment != "settled"):
                                 continue
                             if timeout == 2.0 and not (topo == "popen" and model == "thread"):
                                 continue
